@@ -446,6 +446,11 @@ func (x *X) loopCore(f *Frame, st *State, L *loopDesc) *State {
 			if !(strings.HasPrefix(w.Heap, "H!") || strings.HasPrefix(w.Heap, "E!") || strings.HasPrefix(w.Heap, "M!")) {
 				continue
 			}
+			if m := mods[w.Heap]; m != nil && !m.whole {
+				// written only at loop-invariant references: havocked cell by cell at the loop head, the
+				// "older cells keep their value" assumption was not made for this heap
+				continue
+			}
 			goal := TFalse
 			key := w.Heap + "@whole"
 			if w.Ref != nil {
